@@ -163,7 +163,8 @@ def _worker(check_mod, tier, seed, task_q, result_q):
         ctx = Ctx(tier, seed)
         t0 = time.time()
         try:
-            signal.setitimer(signal.ITIMER_REAL, chk.shard_timeout[tier])
+            # repeating timer: if the first ShardTimeout is swallowed somewhere it is raised again every 5 s
+            signal.setitimer(signal.ITIMER_REAL, chk.shard_timeout[tier], 5)
             try:
                 chk.run_shard(shard, ctx)
             finally:
